@@ -170,12 +170,13 @@ def concrete_list(l):
 def list_lemmas(terms):
     """ground instances of proved list facts for the VL terms occurring in `terms`
     (length >= 0; app(l, nil) == l; length(app) ; nth of snoc) -- instantiated, never quantified (DESIGN 2.10)."""
-    seen, out, stack = set(), [], list(terms)
+    seen, out, stack = set(), [], [(t, 0) for t in terms]
     while stack:
-        e = stack.pop()
+        e, depth = stack.pop()
         if e.get_id() in seen:
             continue
         seen.add(e.get_id())
+        n_before = len(out)
         if z3.is_app(e):
             n = e.decl().name()
             if n == 'length':
@@ -223,9 +224,12 @@ def list_lemmas(terms):
                 out.append(length(e.arg(0)) >= 0)
             for hook in LEMMA_HOOKS:
                 out += hook(e, n)
-            stack.extend(e.children())
+            stack.extend((c, depth) for c in e.children())
+            if depth < 2:
+                # lemma instances mention new list terms: instantiate for those too (bounded depth)
+                stack.extend((f, depth + 1) for f in out[n_before:])
         elif z3.is_quantifier(e):
-            stack.append(e.body())
+            stack.append((e.body(), depth))
     return out
 
 
